@@ -673,19 +673,25 @@ Proof.
   split; [|repeat split; assumption].
   intros j x Hj0 Hx. unfold lat_at, nthZ in Hx.
   destruct (Z.to_nat j) as [|[|[|[|[|n]]]]] eqn:Hj; cbn [nth] in Hx.
-  - subst l0. destruct H0 as [R E]. rewrite E. cbn [slot_if sl_saved sl_stall sl_flush sl_exit].
-    rewrite <- E. repeat split; try lia; try assumption; try discriminate; try congruence.
-  - subst l1. destruct H1 as (R & F & S & E). rewrite F, S, E. repeat split; try lia; try assumption; try congruence.
-  - subst l2. destruct H2 as (R & S & F & E & St). rewrite S, F. unfold wb_flush.
-    repeat split; try lia; try assumption; auto.
-    + apply E. assumption.
-    + destruct (sl_exit x); [reflexivity|congruence].
-  - subst l3. destruct H3 as (R & S & St & E). rewrite S, St.
-    repeat split; try lia; try assumption; auto; try discriminate; apply E; assumption.
-  - subst l4. destruct H4 as (R & S & St & F & E). rewrite S, St, F. unfold wb_flush.
-    repeat split; try lia; try assumption; auto; try discriminate.
-    + apply E. assumption.
-    + destruct (sl_exit x); [reflexivity|congruence].
+  - subst l0. destruct H0 as [R E].
+    assert (S : sl_saved x = false) by (rewrite E; reflexivity).
+    assert (St : sl_stall x = false) by (rewrite E; reflexivity).
+    assert (F : sl_flush x = None) by (rewrite E; reflexivity).
+    assert (Ex : sl_exit x = None) by (rewrite E; reflexivity).
+    refine (conj _ (conj S (conj R (conj _ (conj _ _))))); try lia; congruence.
+  - subst l1. destruct H1 as (R & F & S & Ex).
+    refine (conj _ (conj S (conj R (conj _ (conj _ _))))); try lia; try congruence.
+  - subst l2. destruct H2 as (R & S & F & E & St).
+    refine (conj _ (conj S (conj R (conj _ (conj _ _))))); try lia.
+    intros Hex. split; [apply E; exact Hex|]. rewrite F. unfold wb_flush.
+      destruct (sl_exit x); [reflexivity|congruence].
+  - subst l3. destruct H3 as (R & S & St & E).
+    refine (conj _ (conj S (conj R (conj _ (conj _ _))))); try lia; try congruence.
+    exact E.
+  - subst l4. destruct H4 as (R & S & St & F & E).
+    refine (conj _ (conj S (conj R (conj _ (conj _ _))))); try lia; try congruence.
+    intros Hex. split; [apply E; exact Hex|]. rewrite F. unfold wb_flush.
+      destruct (sl_exit x); [reflexivity|congruence].
   - destruct n; discriminate Hx.
 Qed.
 
@@ -726,7 +732,8 @@ Proof.
   intros Sh Hs. pose proof (sh_mode _ Sh) as Hm. rewrite Hs in Hm. unfold ModeInv in Hm.
   destruct (saved p) as [svl|]; [|contradiction].
   destruct Hm as [Hd [(Hk & _)|(_ & m0 & y1 & x2 & -> & Sk0 & Hl2 & Sk1 & _ & _ & Hd2 & Hd1)]]; [discriminate Hk|].
-  exists m0, y1, x2. repeat split; assumption.
+  exists m0, y1, x2. split; [reflexivity|]. split; [exact Sk0|]. split; [exact Hl2|].
+  split; [exact Sk1|]. split; assumption.
 Qed.
 
 (** * Bubbles come in pairs *)
@@ -766,6 +773,87 @@ Proof.
   intros Sh Hs. destruct (shape_skid2 p 1 Sh Hs) as (m0 & y1 & x2 & Hsv & _ & _ & Sk1 & _ & Hd1).
   exists y1. unfold sv_at. rewrite Hsv. split; [reflexivity|]. destruct Sk1 as (Iy & Sy & _).
   split; [exact Iy|]. unfold ex_busy. rewrite Sy, (Hd1 eq_refl). reflexivity.
+Qed.
+
+(** * Stall countdown on reachable states (L0.7 with the side conditions discharged) *)
+
+(* while a stage is stalled no new stall can start *)
+Lemma stalled_no_new_stall p k d next s : Shape p -> stalled p = Some (k, d) ->
+  run_stages (bump p) = (next, s, None) -> new_stall next (Some (k, d)) = None.
+Proof.
+  intros Sh Hs Hr. destruct (shape_elim _ Sh) as (l0 & l1 & l2 & l3 & l4 & Hl & _ & H0 & _).
+  pose proof (L0ok_flags _ _ H0) as [Hs0 _].
+  destruct (shape_stalled p Sh) as [[E _]|(k' & d' & sv & E & _ & Hk & _)]; rewrite Hs in E; [discriminate|].
+  inv E. destruct Hk as [-> | ->].
+  - rewrite (run_stages_stall1 (bump p) _ _ _ _ _ d' Hl Hs) in Hr. unfold run_stall1 in Hr.
+    destruct (wb_on l3 _) as [[n4 s2] [e|]] eqn:HWB; [nofault Hr|]. apply wb_on_flags in HWB.
+    destruct (mem_on l2 s2) as [[n3 s4] [e|]] eqn:HMEM; [nofault Hr|]. apply mem_on_flags in HMEM.
+    inv Hr. apply new_stall_ignored_1; assumption.
+  - rewrite (run_stages_stall2 (bump p) _ _ _ _ _ d' Hl Hs) in Hr. unfold run_stall2 in Hr.
+    destruct (wb_on l3 _) as [[n4 s2] [e|]] eqn:HWB; [nofault Hr|]. apply wb_on_flags in HWB.
+    destruct (ex_on _ l2 l3 s2) as [[n2 s3] [e|]] eqn:HEX; [nofault Hr|].
+    inv Hr. apply new_stall_ignored_2; [assumption|reflexivity|assumption].
+Qed.
+
+Lemma step_ok_run p : snd (pipe_step p) = None -> exists next s, run_stages (bump p) = (next, s, None).
+Proof.
+  rewrite pipe_step_eq. destruct (run_stages (bump p)) as [[next s] [f|]]; cbn [snd]; [discriminate|].
+  intros _. exists next, s. reflexivity.
+Qed.
+
+(* a stall lasts exactly two cycles — (k,2) -> (k,1) -> not stalled — unless a flush raised
+   behind the stalled stage cancels it; the stall counter moves only in the detection step *)
+Theorem stall_countdown p k : Shape p -> snd (pipe_step p) = None ->
+  let p' := fst (pipe_step p) in
+  (stalled p = Some (k, 2) ->
+     stalls (pst p') = stalls (pst p) /\ (stalled p' = Some (k, 1) \/ stalled p' = None)) /\
+  (stalled p = Some (k, 1) -> stalls (pst p') = stalls (pst p) /\ stalled p' = None).
+Proof.
+  intros Sh Hok. cbv zeta. destruct (step_ok_run p Hok) as (next & s & Hr).
+  split; intros Hs.
+  - destruct (shape_stalled p Sh) as [[E _]|(k' & d' & sv & E & Hsv & _)]; rewrite Hs in E; [discriminate|]. inv E.
+    destruct (stall_first p next s k' sv Hs Hsv Hr (stalled_no_new_stall _ _ _ _ _ Sh Hs Hr)) as [H1 H2].
+    split; [exact H1|]. destruct (flush_cancels next k'); [right|left]; apply H2.
+  - destruct (shape_stalled p Sh) as [[E _]|(k' & d' & sv & E & Hsv & _)]; rewrite Hs in E; [discriminate|]. inv E.
+    destruct (stall_last p next s k' sv Hs Hsv Hr (stalled_no_new_stall _ _ _ _ _ Sh Hs Hr)) as (H1 & H2 & _).
+    split; assumption.
+Qed.
+
+(* the interlock law (C07): once a decode-stage hazard has stalled ID — state (1,2) — two stalled
+   cycles follow in which EX receives a bubble (no instruction enters EX), latch IF is held and
+   the stall counter stands still; then the pipeline runs again.  A flush from MEM / WB may cut
+   this short. *)
+Theorem interlock_law p : fetch_faithful -> Shape p -> stalled p = Some (1, 2) ->
+  let p1 := fst (pipe_step p) in let p2 := fst (pipe_step p1) in
+  snd (pipe_step p) = None -> snd (pipe_step p1) = None ->
+  lat_at (lat p1) 2 = None /\ stalls (pst p1) = stalls (pst p) /\
+  (stalled p1 = None \/
+   (stalled p1 = Some (1, 1) /\ lat_at (lat p1) 0 = lat_at (lat p) 0 /\
+    lat_at (lat p2) 2 = None /\ stalls (pst p2) = stalls (pst p) /\ stalled p2 = None)).
+Proof.
+  intros FF Sh Hs. cbv zeta. intros Hok1 Hok2.
+  destruct (shape_elim _ Sh) as (l0 & l1 & l2 & l3 & l4 & Hl & _).
+  pose proof (interlock_ex_bubble p _ _ _ _ _ 2 Hl Hs Hok1) as Hb1.
+  destruct (stall_countdown p 1 Sh Hok1) as [Hc _]. destruct (Hc Hs) as [Hst1 Hd1]. clear Hc.
+  split; [exact Hb1|]. split; [exact Hst1|].
+  destruct Hd1 as [Hd1|Hd1]; [right|left; exact Hd1].
+  pose proof (shape_step p FF Sh) as Sh1.
+  destruct (shape_elim _ Sh1) as (k0 & k1 & k2 & k3 & k4 & Hl1 & _).
+  pose proof (interlock_ex_bubble _ _ _ _ _ _ 1 Hl1 Hd1 Hok2) as Hb2.
+  destruct (stall_countdown _ 1 Sh1 Hok2) as [_ Hc]. destruct (Hc Hd1) as [Hst2 Hd2].
+  split; [exact Hd1|]. split; [|split; [exact Hb2|split; [lia|exact Hd2]]].
+  (* latch IF held: no flush happened, since the stall survived *)
+  destruct (step_ok_run p Hok1) as (next & s & Hr).
+  pose proof Hr as Hr'. rewrite (run_stages_stall1 (bump p) _ _ _ _ _ 2 Hl Hs) in Hr'. unfold run_stall1 in Hr'.
+  destruct (wb_on l3 _) as [[n4 s2] [e|]]; [nofault Hr'|].
+  destruct (mem_on l2 s2) as [[n3 s4] [e|]]; [nofault Hr'|]. inv Hr'.
+  destruct (first_flush [l0; id_on (hazards (bump p)) (sv_at (bump p) 0) l1 l2 s2; None; n3; n4]) as [[i a]|] eqn:Hff.
+  - exfalso. destruct (flush_law p _ _ _ _ Hr Hff) as (_ & _ & _ & _ & _ & Hk). cbv zeta in Hk.
+    specialize (Hk 1 1 Hd1).
+    destruct (shape_flags p Sh) as (_ & _ & Hf0 & Hf1). rewrite Hl in Hf0, Hf1. lat5h Hf0. lat5h Hf1.
+    rewrite first_flush_5 in Hff by (assumption || apply id_on_flags).
+    cbn [flush_of] in Hff. destruct (flush_of n4); [inv Hff; lia|]. destruct (flush_of n3); [inv Hff; lia|discriminate].
+  - destruct (no_flush_law p _ _ Hr Hff) as (Hlat & _). cbv zeta in Hlat. rewrite Hlat, Hl. reflexivity.
 Qed.
 
 End WithIM.
